@@ -5,12 +5,17 @@ from . import queryjobs
 from .bddprops import ASSUMPTIONS
 replay = queryjobs.replay
 key = queryjobs.key
-def validate(ctx, tier, seed): return queryjobs.validate_features(ctx, tier, seed, [build.DEFAULT_FEATURES])
+# the memoised counters are only reachable (and documented to work) without ad-hoc counting or with ad-hoc model counting:
+# the queries are therefore also decided on MIR dumped without any counting feature and with adhoccountmodels
+SETS = [tuple(sorted(build.DEFAULT_FEATURES)), ('frontend', 'variablelist'), ('adhoccounting', 'adhoccountmodels', 'variablelist')]
+def validate(ctx, tier, seed): return queryjobs.validate_features(ctx, tier, seed, SETS[:2])
 def spec(ctx, tier, seed):
-    k = ctx.engine()
-    return {'jobs': queryjobs.make_jobs(Job, tier, seed, [build.DEFAULT_FEATURES], [k]), 'level': 'model_checking', 'assumptions': ASSUMPTIONS,
+    keys = [ctx.engine(s) for s in SETS]
+    jobs = queryjobs.make_jobs(Job, tier, seed, SETS[:1], keys[:1]) + queryjobs.make_jobs(Job, tier, seed, SETS[1:], keys[1:], canary=False, light=(tier == 'quick'))
+    return {'jobs': jobs, 'level': 'model_checking', 'assumptions': ASSUMPTIONS,
+            'extra_coverage': {'feature_sets': [build.fkey(s) for s in SETS]},
             'allowed_status': ('ok', 'panic'),
             'bounds': 'diagrams from symbolic truth tables: all functions of 2 variables, 3-variable (thorough: 4-variable) families with one symbolic table in seeded '
-                      'contexts; all goal values and goal variables 0..n; ModelCounts::minimum/more_models on unconstrained 64-bit counts (full width). Default feature set; '
+                      'contexts; all goal values and goal variables 0..n; ModelCounts::minimum/more_models on unconstrained 64-bit counts (full width). Feature sets: default, no counting feature (naive + memoised counters), adhoccountmodels; '
                       'memoised model counting is exercised only where documented to work.',
-            'outside': 'path cubes of the two constant diagrams (Bdd::interpretations returns no cube for a constant; its callers never pass one); other feature sets are C12'}
+            'outside': 'path cubes of the two constant diagrams (Bdd::interpretations returns no cube for a constant; its callers never pass one); the remaining feature sets are C12'}
